@@ -236,6 +236,13 @@ def run(program, rep, tier):
             if c_ is not None and isinstance(c_.attrs.get(v_.attr),
                                              ast.Constant):
                 v_ = c_.attrs[v_.attr]
+        if not sets and any(e.kind == 'cond' and e.sym is not None
+                            and e.sym.text == 'self._cached'
+                            and e.extra is False
+                            for e in ex.state.trace):
+            # the path was taken because the flag itself was read as
+            # unset (`if not self._cached: return`): nothing to lower
+            continue
         if not sets or not (isinstance(v_, ast.Constant)
                             and v_.value is False):
             bad = ex
